@@ -19,6 +19,18 @@ from ..lib.inhost import InHostMixin, HOST_ASSUMPTIONS, PID_IN, PID_OUT, PID_SET
 from .c11 import InHarness
 
 PROP = "C14"
+# FINDINGS (genuine defects found by this check on the original tree, now fixed in /repo):
+#   "fix: only accept the ACK of our own status stage in register-write and CLEAR_FEATURE requests" (7d85238)
+#       StandardRequestHandler's CLEAR_FEATURE state strobed clear_endpoint_halt on *any* ACK: before the status stage (a
+#       broadcast ACK of another endpoint's IN data between SETUP and status), and for requests it STALLs
+#       (recipient != endpoint or feature != ENDPOINT_HALT; the FSM also stayed in CLEAR_FEATURE after the STALL).
+#       Caught by harness C: enable_needs_own_ack, enable_needs_halt_request (and enable_on_completion through the stale state).
+#   "fix: a data-toggle reset wins over the toggle of a newly queued IN packet" (04d9e6c)
+#       clear-halt strobe in the very cycle USBInTransferManager queues a packet (WAIT_FOR_DATA, packet_ready): the FSM's
+#       data_pid[0] toggle overrode the reset, first packet after ClearFeature(HALT) was DATA1.
+#       Caught by harness A: data0_after_clear, pid_seq.
+#   Harness B (USBStreamOutEndpoint) found nothing.  A new SETUP not restarting the handler FSM (C07's finding) is excluded
+#   from harness C's halt-request/completion clauses by the `clean` ghost.
 ENCODED = [
     "luna/gateware/usb/usb2/endpoints/stream.py: USBStreamInEndpoint clear_endpoint_halt decoding -> tx_manager.reset_sequence",
     "luna/gateware/usb/usb2/transfer.py: USBInTransferManager data_pid handling (reset_sequence, toggles on swap/ACK/ZLP)",
@@ -379,9 +391,9 @@ def queries(tier):
     fb = lambda: OutClearHarness(2, 6)
     qs.append(Query("bmc_out", fb, 22 if quick else 28, timeout=900,
                     desc="B: USBStreamOutEndpoint mps=2 buffer 6, OUT host free (toggles, corruption, gaps), consumer free, clear-halt strobe"))
-    qs.append(Query("cosim_out", fb, 0, kind="cosim", cosim_cycles=100 if quick else 600))
+    qs.append(Query("cosim_out", fb, 0, kind="cosim", cosim_cycles=60 if quick else 600))
     fc = lambda: HandlerHarness()
     qs.append(Query("bmc_handler", fc, 12 if quick else 18, timeout=900,
                     desc="C: StandardRequestHandler, SETUP fields symbolic per request, tokens/stage strobes/own+broadcast ACKs free"))
-    qs.append(Query("cosim_handler", fc, 0, kind="cosim", cosim_cycles=100 if quick else 600))
+    qs.append(Query("cosim_handler", fc, 0, kind="cosim", cosim_cycles=60 if quick else 600))
     return qs
